@@ -55,7 +55,7 @@ theorem consumeField_eq (p : Bytes) : consumeField p = .ok (cfPure p) := by
     | some i =>
       have := indexByte_lt hi
       have h2 : i ≤ p.length - 1 := by simp only [List.length_drop] at this; omega
-      simp [sliceTo, sliceFrom, h2]
+      simp [sliceTo, h2]
     | none => rfl
 
 /-- `consumeFieldFromRight` without the bound checks -/
@@ -90,7 +90,7 @@ theorem consumeParam_eq (p : Bytes) : consumeParam p = .ok (cpPure p) := by
   simp only [consumeField_eq, Res.ok_bind]
   rcases cfPure p with ⟨name, _ | rest⟩
   · rfl
-  · by_cases h : name.length = 0 <;> simp [h, consumeField_eq]
+  · by_cases h : name.length = 0 <;> simp [h]
 
 /-- `consumeParamFromRight` without the bound checks -/
 def cprPure (p : Bytes) : Option (Param × Option Bytes) :=
@@ -104,7 +104,7 @@ theorem consumeParamFromRight_eq (p : Bytes) : consumeParamFromRight p = .ok (cp
   simp only [consumeFieldFromRight_eq, Res.ok_bind]
   rcases cfrPure p with ⟨value, _ | rest⟩
   · rfl
-  · by_cases h : (cfrPure rest).1.length = 0 <;> simp [h, consumeFieldFromRight_eq]
+  · by_cases h : (cfrPure rest).1.length = 0 <;> simp [h]
 
 /-! ## outcomes that are a value or `malformed` / never a crash -/
 
@@ -174,7 +174,6 @@ theorem inspectAmModFragment_okOrMal (p : Bytes) : (inspectAmModFragment p).OkOr
     · trivial
     · refine Res.OkOrMal.bind (inspectStatusResponse_okOrMal _) ?_
       intro ⟨order, version⟩ _
-      simp only [Res.ok_bind]
       split <;> (simp only [Res.pure_eq, Res.ok_bind]; repeat (first | trivial | split))
 
 theorem inspectGS1Fragment_okOrMal (p : Bytes) : (inspectGS1Fragment p).OkOrMal := by
